@@ -149,13 +149,13 @@ class C11:
                     s = gen.mutate(rng, s)
                 cfg = rng.pick([(1000, 1000, 10_000_000), (None, None, None)])
                 g = Group("t%d" % k, "req-reparse", {"stream": s.hex(), "kind": "req"})
-                g.add("rt", gen.req_op(tree, ov, cfg, [s], op="RTREQ"))
+                g.add("rt", gen.req_op(tree, ov, cfg, [s] if rng.chance(2, 3) else rng.pick(gen.schedules(rng, s, n_random=2) or [[s]]), op="RTREQ"))
             else:
                 s, info = gen.gen_response(rng, good_p=0.9, chunked_p=0.5) if rng.chance(2, 3) else (build_valid_response(rng)[0], {})
                 if rng.chance(1, 8):
                     s = gen.mutate(rng, s)
                 g = Group("t%d" % k, "resp-reparse", {"stream": s.hex(), "kind": "resp"})
-                g.add("rt", gen.resp_op(tree, ov, None, [s], op="RTRESP"))
+                g.add("rt", gen.resp_op(tree, ov, None, [s] if rng.chance(2, 3) else rng.pick(gen.schedules(rng, s, n_random=2) or [[s]]), op="RTRESP"))
             groups.append(g)
         return groups
 
